@@ -159,6 +159,62 @@ def restart_helper(ctx, lo, hi, max_files, timeout):
         ctx.nfail += 1
 
 
+@scenario
+def restart_time_agreement(ctx, indices):
+    """restart helper with REAL-valued flow / body times (solver variables, path forking on the helper's comparison):
+    it returns the flow time iff the two times are equal and refuses (ValueError) iff they differ - by however little"""
+    from pathlib import PurePosixPath
+
+    sopht_modules()
+    import sopht.utils.restart_sim as rs
+
+    t_flow = ctx.scalar("t_flow", default=20.0)
+    t_rod = ctx.scalar("t_rod", default=20.0)
+    log = []
+
+    class _IO:
+        def __init__(self, t):
+            self.t = t
+
+        def load(self, h5_file_name):
+            log.append(h5_file_name)
+            return self.t
+
+    class _Cwd:
+        def glob(self, pattern):
+            return [PurePosixPath("sopht_%04d.h5" % i) for i in indices]
+
+    class _PathStub:
+        @staticmethod
+        def cwd():
+            return _Cwd()
+
+    saved = (rs.Path, rs.ea)
+    rs.Path = _PathStub
+    rs.ea = type("ea", (), {"load_state": staticmethod(lambda sim, d, verbose: t_rod), "BaseSystemCollection": object})
+    try:
+        try:
+            t = rs.restart_simulation(restart_simulator=None, io=_IO(t_flow), rod_io=_IO(-1.0), forcing_io=_IO(-2.0), restart_dir="d")
+            outcome = "ok"
+        except ValueError:
+            t, outcome = None, "mismatch"
+    finally:
+        rs.Path, rs.ea = saved
+    if ctx.sym:
+        from symsopht import sym as S
+
+        same = S._cmp("eq", S.lift(t_flow), S.lift(t_rod))
+        ctx.claim("proceeds_only_when_flow_and_body_times_agree", same if outcome == "ok" else S.Not(same))
+        if outcome == "ok":
+            ctx.eq("returns_the_flow_time", t, t_flow)
+    else:
+        ctx.claim("proceeds_only_when_flow_and_body_times_agree", (t_flow == t_rod) == (outcome == "ok"))
+        if outcome == "ok":
+            ctx.eq("returns_the_flow_time", t, t_flow)
+    m = max(indices)
+    ctx.claim("loads_the_three_files_of_the_largest_index", log == ["sopht_%04d.h5" % m, "rod_%04d.h5" % m, "forcing_grid_%04d.h5" % m])
+
+
 # heavy scenarios: a data-dependent branch introduced into the step forks them; keep the exploration bound small
 no_hidden_state.max_paths = 4
 
@@ -185,12 +241,14 @@ def main():
         chk.add(no_hidden_state, cfg=c)
         chk.add(deterministic_construction, cfg=c)
     chk.add(deterministic_construction, cfg=dict(kind="ns3d", shape=(4, 4, 5), forcing=True, free_stream=True, filter=None, solver="greens_function_convolution", width=2))
+    chk.add(restart_time_agreement, indices=[3, 7])
+    chk.add(restart_time_agreement, real_t="float32", indices=[9999, 10000])
     chk.add(restart_helper, lo=0, hi=12, max_files=2, timeout=120)
     chk.add(restart_helper, lo=9994, hi=10006, max_files=2, timeout=240)
     if not chk.quick:
         chk.add(restart_helper, lo=0, hi=12, max_files=3, timeout=900)
     chk.bounds = ["(1) one coupled step (body-force evaluation, forcing step, interaction, flow step) on 9x8 (taller than wide) / 6x6x6 (thorough 8x8x8) grids with a 2-marker body; every scratch array, solver buffer, filter buffer, interactor work array holds different arbitrary contents in the two copies",
-                  "(5) CrossHair: <= 2 checkpoint files with indices in [0,12) and in [9994,10006) (the 4->5 digit boundary of the :04d file names); thorough: also <= 3 files; flow/body times arbitrary ints", "(4) concrete comparison of constructed tables"]
+                  "(5) CrossHair: <= 2 checkpoint files with indices in [0,12) and in [9994,10006) (the 4->5 digit boundary of the :04d file names); thorough: also <= 3 files; flow/body times arbitrary ints", "(4) concrete comparison of constructed tables", "(5b) restart helper with real-valued flow / body times as solver variables (all paths of its comparison), two fixed file sets"]
     chk.outside = ["PyElastica's save_state/load_state and time stepper (upstream)", "through-HDF5 fidelity (C17's stub contract)", "longer runs: follow by induction over steps from (1)+(C17)+(4), not re-proved",
                    "3-D Green's-function solver in (1) on 8^3 grids (cost of the exact DFT; its buffer independence is C03)"]
     chk.assumptions = ["the Eulerian forcing field is zero at step boundaries (C01)", "forcing grid = harness stub with concrete marker positions (C10)", "CrossHair's 'Confirmed over all paths' is taken as the bounded verdict; anything else is inconclusive"]
